@@ -61,7 +61,7 @@ R_DEFAULT == 0  R_PIPE == 1  R_PARENT == 2  R_DISCARD == 3  R_STDOUT == 4
 Min(a, b) == IF a < b THEN a ELSE b
 HasBit(m, b) == (m \div b) % 2 = 1
 
-NoChild == [alive |-> "none", code |-> 0, term |-> 2, termAt |-> INF, fd |-> <<"x", "x", "x">>, self |-> FALSE]
+NoChild == [alive |-> "none", code |-> 0, term |-> 2, termAt |-> INF, fd |-> <<"x", "x", "x">>, self |-> FALSE, fk |-> FALSE]
 NoOpt == [dl |-> INF, stop |-> <<<<NOOP, 0>>, <<NOOP, 0>>, <<NOOP, 0>>>>, nb |-> FALSE]
 NoPend == [i |-> FALSE, o |-> FALSE, e |-> FALSE, x |-> FALSE]
 NoBuf == [i |-> 0, o |-> <<>>, e |-> <<>>]
@@ -413,6 +413,9 @@ RetRec(s) ==
        [] f.fn = "read" /\ f.r > 0 -> base @@ [r |-> f.r, runs |-> f.x, bad |-> 0]
        [] f.fn \in {"drain", "run"} /\ DOMAIN f.x # {} -> base @@ [r |-> f.r, dsum |-> DrainSummary(f), bad |-> 0]
        [] f.fn = "start" /\ f.r < 0 /\ ~StrictFailedStart -> [e |-> "ret", t |-> now, mon |-> <<>>, r |-> f.r]
+       [] f.fn = "start" /\ f.r = 1 /\ f.x = <<"fork">> ->
+            \* in the forked child: start returned 0; pid and wait are rejected there (only destroy is allowed)
+            base @@ [r |-> 1, fchild |-> <<0, EINVAL, EINVAL>>]
        [] f.alt # {} -> base @@ [r |-> [any |-> SetToSeq({f.r} \cup f.alt)]]
        [] OTHER -> base @@ [r |-> f.r]
 
@@ -458,9 +461,11 @@ EffRedir(o) == [i |-> IF o.rin = R_DEFAULT THEN R_PIPE ELSE o.rin,
                 o |-> IF o.rout = R_DEFAULT THEN R_PIPE ELSE o.rout,
                 e |-> IF o.rerr = R_DEFAULT THEN R_PARENT ELSE o.rerr]
 
-StartArgs(o) == [argv |-> <<o.prog>>, term |-> o.term,
+\* fork mode (POSIX): start without argv; the forked child returns 0 from start, the parent gets an ordinary running child
+IsFork(o) == "fork" \in DOMAIN o /\ o.fork
+StartArgs(o) == [argv |-> <<o.prog>>, term |-> o.term, noargv |-> IF IsFork(o) THEN 1 ELSE 0,
                  o |-> [dl |-> o.dl, stop |-> o.stop, nb |-> IF o.nb THEN 1 ELSE 0, rin |-> o.rin, rout |-> o.rout,
-                        rerr |-> o.rerr, input |-> o.input]]
+                        rerr |-> o.rerr, input |-> o.input, fork |-> IF IsFork(o) THEN 1 ELSE 0]]
 
 \* error a start with options o fails with on a startable handle (0 = it succeeds)
 StartError(o) ==
@@ -474,7 +479,7 @@ StartError(o) ==
 StartEffect(s, h, o) ==
   LET er == EffRedir(o)
       hasIn == o.input >= 0
-      c == [alive |-> "run", code |-> 0, term |-> o.term, termAt |-> INF, self |-> o.self,
+      c == [alive |-> "run", code |-> 0, term |-> o.term, termAt |-> INF, self |-> o.self, fk |-> IsFork(o),
             fd |-> << IF er.i = R_PIPE THEN "pi" ELSE "ot",
                       IF er.o = R_PIPE THEN "po" ELSE "ot",
                       IF er.e = R_PIPE THEN "pe" ELSE IF er.e = R_STDOUT /\ er.o = R_PIPE THEN "po" ELSE "ot" >>]
@@ -491,7 +496,7 @@ Start(h, o) ==
   ELSE IF StartError(o) # 0 THEN Immediate("start", h, StartArgs(o), StartError(o))
   ELSE
     /\ Idle /\ ncalls' = ncalls + 1
-    /\ Finish(StartEffect([Bundle EXCEPT !.fr = [Frame("start", h, "done", <<>>) EXCEPT !.r = 1]], h, o),
+    /\ Finish(StartEffect([Bundle EXCEPT !.fr = [Frame("start", h, "done", <<>>) EXCEPT !.r = 1, !.x = IF IsFork(o) THEN <<"fork">> ELSE <<>>]], h, o),
               Append(hist, CallRec("start", h, StartArgs(o))))
 
 Pid(h) ==
